@@ -150,6 +150,11 @@ def run_H6(ctx, case):
             if entry == 'alloc_cache' and isnull: supported = False          # unsupported Argon2 flag combination is allowed to return NULL
             if supported:
                 chk(not isnull, 'no allocation failed but the call returned NULL')
+                if not isnull and entry == 'alloc_cache':
+                    # a new cache must not look initialised whatever the heap block contained before (C03: no dependence on heap history)
+                    tc_ = resolve(NamedT('struct.randomx_cache', mod)); tp_ = resolve(NamedT('class.randomx::SuperscalarProgram', mod))
+                    sz = it.mem.load(Ptr(r.obj, tc_.layout()[0][5] + tp_.layout()[0][1]), 4)
+                    chk(is_c(sz) and sz == 0, 'a freshly allocated cache can report isInitialized() (programs[0].size is %s, taken from stale heap content)' % (str(sz)[:40],))
                 if not isnull:
                     H.fail = False
                     try:
